@@ -18,7 +18,10 @@ MANIFEST = dict(
          "acceptance test is u < w/w_max, the accepted uniforms are the initial interval [0, w/w_max) of [0,1) and the accepted "
          "mass at a point is q*(p/q)/w_max = p/w_max, the same multiple of the prior everywhere - false for any other normaliser "
          "(accepted_mass_fails_with_other_normaliser); assuming uniform np.random.rand. The enlarged search (and the thorough "
-         "tier) tests real rejection pools with an exact-binomial box test. Lean theorems over a bookkeeping model of the pool code — candidate batches, in-bounds flags, "
+         "tier) tests real rejection pools with an exact-binomial box test. SOURCE TIE: the acceptance step of "
+         "RejectionProposal.populate (normalisation by np.nanmax, log-uniforms, np.where((log_w - log_u) >= 0), x[indices]) is "
+         "regenerated literally, in the model's NaN/inf arithmetic, from the current source on every run (harness/c09_tx.py -> "
+         "Gen/PoolTx.lean) and rejection_accept_source_eq_model proves it selects exactly the pool of populateRejection. Lean theorems over a bookkeeping model of the pool code — candidate batches, in-bounds flags, "
          "log-densities, log-uniforms, gate decisions and permutation keys are arbitrary inputs, floats carry NaN/±inf "
          "semantics — for all batch counts/sizes and op sequences: check_prior_bounds keeps exactly the in-bounds rows and "
          "every flow-pool point passed it (backward_pass(rescale=True); the x-prime-prior branch is not modelled); the plain loop of FlowProposal.populate writes exactly N points, every slot once, "
@@ -50,7 +53,8 @@ MANIFEST = dict(
          "likelihood_args_in_support are stated for the rescale=True branch only "
          "(backward_pass_without_rescale_keeps_out_of_bounds shows the difference); flow densities themselves are C08. Model.in_bounds "
          "treats NaN coordinates as inside; NaN coordinates are outside the generated domain.",
-    technique="Lean 4 proof (loop invariants by induction over batch / op sequences) + scripted-flow differential "
+    technique="Lean 4 proof (loop invariants by induction over batch / op sequences) + source-to-Lean translation of the "
+              "acceptance step of RejectionProposal.populate re-proved equal to the model on every run + scripted-flow differential "
               "correspondence with the real proposal classes + oracle on real runs",
     ref="5/C09")
 
@@ -1395,6 +1399,12 @@ def corpus():
     from .core import VERIF
     f = VERIF / "corpus" / "C09" / "sessions.json"
     return json.loads(f.read_text()) if f.exists() else []
+
+
+def gen(ctx):
+    """regenerate Gen/PoolTx.lean from the current source of RejectionProposal.populate (harness/c09_tx.py)"""
+    from . import c09_tx
+    c09_tx.gen(ctx)
 
 
 def correspond(ctx):
